@@ -217,8 +217,8 @@ PROPS["C10"] = {
 }
 
 PROPS["C13"] = {
-    "lean_modules": ["AvroModel.Props.C13"],
-    "required_theorems": ["write_valid", "write_valid_built", "write_then_read", "null_second_selector", "general_union_write_panics", "timeLong_units"],
+    "lean_modules": ["AvroModel.Props.C13", "AvroModel.Props.C13b"],
+    "required_theorems": ["write_valid", "write_valid_built", "write_then_read", "null_second_selector", "general_union_write_panics", "timeLong_units", "built_roundtrip", "built_roundtrip_exact"],
     "harness": [("WR13", "C13")],
     "level_text": "Proof: for every codec the model of build.go constructs for a caller-supplied schema, every Go value and every budget, the bytes "
                   "the model of Codec.Write produces are exactly the specification's encoding (canonical plan) of the datum the value denotes "
